@@ -4,7 +4,7 @@
 import json, glob, os, collections
 V = "/verif"
 print("#### Seeded changes from independent sub-agents (seeded/<id>/)\n")
-print("| seed | property | what the change does (first line of the agent's note) | caught by obligation |")
+print("| seed | property | what the change does (first line of the agent's note) | caught by obligation (check, if not the seed's own property) |")
 print("|---|---|---|---|")
 for d in sorted(glob.glob(V + "/seeded/*/meta.json")):
     m = json.load(open(d))
@@ -12,7 +12,9 @@ for d in sorted(glob.glob(V + "/seeded/*/meta.json")):
     first = next((l.strip() for l in note if l.strip()), "")[:110].replace("|", "/")
     viol = (m.get("check_result", {}).get("violations") or ["(missed)"])[0]
     viol = viol.replace(" no-failing-input-found", "").replace("|", "\\|")[:110]
-    print(f"| {m['id']} | {m['breaks_property']} | {first} | `{viol}` |")
+    by = m.get("check_result", {}).get("caught_by")
+    extra = f" ({by})" if by and by != m["breaks_property"] else ""
+    print(f"| {m['id']} | {m['breaks_property']} | {first} | `{viol}`{extra} |")
 print("\n#### Must-fail corpus (selftest/mutants.json)\n")
 ms = json.load(open(V + "/selftest/mutants.json"))
 by = collections.defaultdict(list)
